@@ -122,11 +122,13 @@ func (c *Cluster) handleShareFetch(creq *clientReq, w *watchShareFetch) (kmsg.Re
 		resp.Topics[idx].Partitions = append(resp.Topics[idx].Partitions, sp)
 		return &resp.Topics[idx].Partitions[len(resp.Topics[idx].Partitions)-1]
 	}
+	var ackErrs []shareAckErr // kept by the watcher if this fetch parks
 	onAck := func(tid uuid, p int32, ec int16) {
 		if ec == 0 {
 			return // success - fetch phase handles the response entry
 		}
 		donep(tid, p, 0).AcknowledgeErrorCode = ec
+		ackErrs = append(ackErrs, shareAckErr{tid, p, ec})
 	}
 	// onAckNotLeader routes a leader-mismatch on a piggybacked ack to
 	// the AcknowledgeErrorCode field. The ShareFetch response has no
@@ -138,12 +140,20 @@ func (c *Cluster) handleShareFetch(creq *clientReq, w *watchShareFetch) (kmsg.Re
 	// same partition was also being fetched.
 	onAckNotLeader := func(tid uuid, p int32, _ *partData) {
 		donep(tid, p, 0).AcknowledgeErrorCode = kerr.NotLeaderForPartition.Code
+		ackErrs = append(ackErrs, shareAckErr{tid, p, kerr.NotLeaderForPartition.Code})
 	}
 
 	// Session management.
 	sgs := &c.shareGroups
 	var session *shareSession
 	if w != nil {
+		// The piggybacked acks were processed on the initial invocation;
+		// this response is built from scratch, so their per-partition
+		// errors are re-applied (otherwise the client is told that
+		// rejected acks succeeded).
+		for _, ae := range w.ackErrs {
+			donep(ae.tid, ae.p, 0).AcknowledgeErrorCode = ae.ec
+		}
 		// Watcher re-invocation: session was already validated.
 		// If the session was overwritten by a new epoch-0 request,
 		// this watcher is stale -- return an empty response so the
@@ -454,6 +464,7 @@ func (c *Cluster) handleShareFetch(creq *clientReq, w *watchShareFetch) (kmsg.Re
 				creq:    creq,
 				session: session,
 				ackTs:   ackTs,
+				ackErrs: ackErrs,
 			}
 			wsf.cb = func() {
 				select {
